@@ -46,7 +46,7 @@ Definition run_tri (p : list point) (tb : tables) (srt : bool) (marked subs : li
 
 Definition run_line (p : list point) (tb : tables) (marked0 subs : list nat) : out_t :=
   let marked := if gen_line_unique then dedup_sorted (sort_nat marked0) else marked0 in
-  let r := line_adaptive p (tb_t tb) marked in
+  let r := line_adaptive (gen_line_mid_base p (tb_t tb)) p (tb_t tb) marked in
   (true, fst r, snd r,
    dedup_sorted (sort_nat (flat_map (gen_line_adapt_children (length (tb_t tb)) marked) subs)), []).
 
@@ -69,6 +69,10 @@ def corr_cases(ctx, rng, n):
         m = gm.build(kind, g['p'], g['t'], g.get('sort_t'))
         if rng.random() < 0.3:
             m = m.refined() if rng.random() < 0.5 else m.refined(np.array([int(rng.integers(0, m.t.shape[1]))]))
+        if kind == 'line' and rng.random() < 0.5:
+            # a point array with unused trailing points (N50): the new midpoints must be numbered from p.shape[1]
+            extra = np.array([[float(40 + 3 * i) for i in range(int(rng.integers(1, 4)))]])
+            m = type(m)(np.hstack((m.p, extra)), m.t, validate=False)
         nt = m.t.shape[1]
         if nt > 24:
             continue
@@ -247,6 +251,33 @@ def check_adaptive(ctx, kind, m, marked, subs, bnds, label, order=1, disjoint=Tr
     return r
 
 
+def check_line_unused(ctx, mu, marked, subs):
+    """segments with unused trailing points: same intervals and tags as for the mesh without those points"""
+    nused = int(np.max(mu.t)) + 1
+    m0 = type(mu)(mu.p[:, :nused], mu.t)
+    mk = np.array(marked, dtype=np.int64)
+    subs = np.asarray(subs, dtype=np.int64)
+    data = case_data('line', mu, subs, marked=[int(v) for v in marked], label='unused-trailing-points')
+    ctx.count(('line-unused', mu.p.tolist(), mu.t.tolist(), list(marked)), nontrivial=mu.t.shape[1] >= 2)
+    try:
+        R0 = m0.with_subdomains({'a': subs}).refined(mk)
+        R = mu.with_subdomains({'a': subs}).refined(mk)
+    except Exception as e:
+        ctx.fail('adaptive-unused-points:MeshLine1', f'refined(marked) raised {type(e).__name__}: {e}', data)
+        return False
+
+    def iv(M):
+        return [tuple(sorted(M.p[0, c].tolist())) for c in M.t.T]
+    tags = (R.subdomains is not None and R0.subdomains is not None
+            and np.array_equal(np.sort(R.subdomains['a']), np.sort(R0.subdomains['a'])))
+    if iv(R) != iv(R0) or not tags or not np.array_equal(R.p[:, :mu.p.shape[1]], mu.p):
+        ctx.fail('adaptive-unused-points:MeshLine1',
+                 'segments with unused trailing points: refined(marked) gives other intervals / tags than for the same '
+                 f'mesh without them (cells {iv(R)[:6]} expected {iv(R0)[:6]})', data)
+        return False
+    return True
+
+
 def all_subsets(n):
     for k in range(n + 1):
         for c in itertools.combinations(range(n), k):
@@ -335,6 +366,32 @@ def run_oracle(ctx):
         nt = m.t.shape[1]
         k0 = int(rng.integers(0, nt))
         check_adaptive(ctx, kind, m, [k0, k0], {'a': [k0]}, {}, 'repeated-index')
+    # (d) N50: segments with unused trailing points — same intervals, same tags as for the mesh without them
+    for _ in range(ctx.n(4, 12)):
+        g = small_mesh('line', rng, 5, ntmin=2)
+        m0 = gm.build('line', g['p'], g['t'])
+        nextra = int(rng.integers(1, 4))
+        mu = type(m0)(np.hstack((m0.p, np.array([[float(50 + 7 * i) for i in range(nextra)]]))), m0.t, validate=False)
+        nt = m0.t.shape[1]
+        subs = gm.random_tags(rng, nt)
+        for sub in all_subsets(nt):
+            if sub and not check_line_unused(ctx, mu, sub, subs):
+                break
+    # (e) N52: tetrahedra with large coordinates (the tie-breaking noise must scale with the coordinates)
+    for scale, shift in ((1e6, 0.), (1e9, 0.), (1., 1e6), (1e3, 1e7))[:ctx.n(3, 4)]:
+        for base in (skfem.MeshTet().refined(1), skfem.MeshTet.init_tensor(*(np.linspace(0, 1, 3),) * 3))[:ctx.n(1, 2)]:
+            cur = base.scaled(scale).translated((shift,) * 3)
+            for step in range(ctx.n(3, 4)):
+                nt = cur.t.shape[1]
+                if nt > 260:
+                    break
+                marked = np.sort(rng.choice(nt, size=min(nt, max(3, nt // 6)), replace=False))
+                basem = type(cur)(cur.p, cur.t)
+                r = check_adaptive(ctx, 'tet', basem, marked, {}, {}, f'large-coordinates:scale={scale:g}:shift={shift:g}/step{step}',
+                                   disjoint=False)
+                if r is None:
+                    break
+                cur = r
     m = skfem.MeshLine(np.array([0., 1, 2, 3]))
     check_adaptive(ctx, 'line', m, [0], {'a': [1]}, {}, 'F4-line-example')
     m = skfem.MeshTet()
@@ -392,9 +449,13 @@ def replay(ctx, data):
     kind = inp['kind']
     ctx.log('replaying', data.get('key'))
     kw = {'sort_t': inp['sort_t']} if kind == 'tri' else {}
-    m = gm.skfem_cls(kind, 1)(np.array(inp['p'], dtype=np.float64)[:, :int(np.max(inp['t'])) + 1],
-                              np.array(inp['t'], dtype=np.int32), **kw)
     order = inp.get('order', 1)
+    P = np.array(inp['p'], dtype=np.float64)
+    if inp.get('label') == 'unused-trailing-points':
+        mu = gm.skfem_cls('line', 1)(P, np.array(inp['t'], dtype=np.int32), validate=False)
+        check_line_unused(ctx, mu, inp['marked'], inp.get('subdomain', []))
+        return
+    m = gm.skfem_cls(kind, 1)(P[:, :int(np.max(inp['t'])) + 1] if order == 2 else P, np.array(inp['t'], dtype=np.int32), **kw)
     if order == 2:
         m = gm.skfem_cls(kind, 2).from_mesh(m)
     if 'marked' in inp:
